@@ -63,6 +63,14 @@ func (r *Recorder) Stop() {
 	r.Before, r.After = nil, nil
 }
 
+// Locked runs f while no recorded mutation is in progress (mutations are serialised by the same lock), so that an
+// image copied by f from outside a callback is a consistent cut as well.
+func (r *Recorder) Locked(f func()) {
+	r.mu.Lock()
+	defer r.mu.Unlock()
+	f()
+}
+
 func (r *Recorder) covers(p string) bool {
 	if !r.on {
 		return false
